@@ -474,7 +474,7 @@ func (c *chunkSink) Sync() error { c.syncs++; return nil }
 // count with a nil error - and bytes acknowledged while no error was ever returned must
 // all have reached the sink after Sync.
 func bufferedOverPartialSink(r *ev.Run) {
-	n := r.N(3000, 30000)
+	n := r.N(3000, 500000)
 	for i := 0; i < n; i++ {
 		id := fmt.Sprintf("c13/buffered-partial/%d", i)
 		if !r.Want(id) {
